@@ -16,7 +16,7 @@ def main(tier):
     rep = common.Reporter(PID, tier, LEVEL)
     binary = _build()
     parts = common.NCPU
-    res = enumlib.run_enumerator(binary, tier, parts, timeout=3000)
+    res = enumlib.run_enumerator(binary, "thorough", parts, timeout=3000)  # the full lattice takes seconds: both tiers run it
     allstats, samples = [], []
     for p, rc, out, err in res:
         st, sm, vi = enumlib.parse_lines(out)
